@@ -178,6 +178,11 @@ type Prop struct {
 	Level string // exploration | fault_enumeration
 	// Gen draws a fresh input. Inputs are pointers to JSON-serialisable structs.
 	Gen func(r *Rand, tier string) interface{}
+	// GenIndexed, when set, is used instead of Gen: run indexes below SweepSize(tier) enumerate
+	// a bounded space completely (deterministically, independent of the seed), later indexes
+	// are random.
+	GenIndexed func(i int, r *Rand, tier string) interface{}
+	SweepSize  func(tier string) int
 	// New returns an empty input to decode a replay file into.
 	New func() interface{}
 	// Run executes the input and checks every oracle clause.
